@@ -73,19 +73,19 @@ T = {
 
 # additions of the third session (appended to the level text / the technique of the property)
 ADD = {
- "C01": (" + concurrent histories (no model)", " Part `conc`: histories made by overlapping calls of 2-6 clients and 0-2 administration goroutines; after quiescence the read-out before Close equals the one after Open, twice; probes D66-D68."),
+ "C01": (" + concurrent histories (no model), also under the Go race detector", " Part `conc`: histories made by overlapping calls of 2-6 clients and 0-2 administration goroutines; after quiescence the read-out before Close equals the one after Open, twice; probes D66-D68."),
  "C02": ("", " Group `covered`: writes acknowledged while a snapshot / compaction is parked at each phase are covered once it completed (process death right after it returned); plain restart after post-recovery deletions; probe D69."),
- "C04": (" + one-writer-per-id concurrent part", " Part `owned`: 2-5 concurrent writers into one index, every id with one writer whose sequential model predicts its reads exactly, beside a maintenance goroutine."),
+ "C04": (" + one-writer-per-id concurrent part, also under the Go race detector", " Part `owned`: 2-5 concurrent writers into one index, every id with one writer whose sequential model predicts its reads exactly, beside a maintenance goroutine."),
  "C05": ("", " Rejections are also planted into emptied and never-populated indexes (which then take a vector of another dimension)."),
  "C06": (" + order / path independence of the decay factor", " Fused scores (text-only, hybrid) are recomputed under filter and graph scope; part `memscores`: the decay factor of an id does not depend on the other results nor on the search path."),
  "C08": (" + window oracle under concurrent metadata updates", " Reads are part of the history (searches combining the filter with other options must not change later answers); group `concurrent`: filters evaluated while writers apply multi-key transitions."),
- "C09": (" + concurrent writers + scores under a filter", " Part `conc`: one writer per document, searches during updates, BM25 from scratch after quiescence / restart; part `hybridfilter`: normalisation over the documents that pass the filter."),
- "C10": (" + history laws under overlapping calls", " Part `conc`: overlapping link / unlink calls with call-unique weights: disjoint life times, views = stored versions at every boundary (incoming view version by version), stamps inside the call brackets, restarts."),
+ "C09": (" + concurrent writers (also under the Go race detector) + scores under a filter", " Part `conc`: one writer per document, searches during updates, BM25 from scratch after quiescence / restart; part `hybridfilter`: normalisation over the documents that pass the filter."),
+ "C10": (" + history laws under overlapping calls, also under the Go race detector", " Part `conc`: overlapping link / unlink calls with call-unique weights: disjoint life times, views = stored versions at every boundary (incoming view version by version), stamps inside the call brackets, restarts."),
  "C11": ("", " Graph-scoped searches are also asked with a text part (explicit / CONTAINS, hybrid / text-only): same scope, nothing from an empty scope."),
  "C12": ("", " Also: shutdown while a snapshot / compaction waits behind the parked cascade."),
  "C13": ("", " Half of the W3/W4 cases run two administration goroutines; clients serialise what they read and work on the index the administrators create / compress / drop."),
  "C14": (" + process death at every phase followed by further acknowledged writes", " Group `crashphase`: process death at every phase of snapshot / compaction / compression / drop, then what the recovered engine acknowledges must survive its clean restarts; VImport+VImportCommit is a write kind of the table."),
- "C15": (" + twin-index oracle + concurrent reinforcements", " Part `twin`: score on the memory index = score on a twin index without decay x decay(id) for vector and hybrid searches, k above and below n; part `conc`: every acknowledged concurrent reinforcement counted exactly once."),
+ "C15": (" + twin-index oracle + concurrent reinforcements (also under the Go race detector)", " Part `twin`: score on the memory index = score on a twin index without decay x decay(id) for vector and hybrid searches, k above and below n; part `conc`: every acknowledged concurrent reinforcement counted exactly once."),
  "C16": ("", " Group `methods`: every route x 12 HTTP methods x refused credentials and restricted tokens (gate oracle)."),
  "C17": ("", " Forbidden-prompt / cache indexes with time decay, answers the gateway stored itself growing older than the TTL in real time, request bodies with typed extras and multimodal earlier turns."),
  "C18": ("", " A late batch on the parallel insert path after compression."),
